@@ -676,11 +676,9 @@ pub fn refdecode(bytes: &[u8]) -> RefMsg {
                 let st = b.pos;
                 let v = b.raw(8);
                 let sv = signed(v, 8);
-                let checks = if sv == -128 {
-                    vec![(Prop::C11, Pat::IsNone)]
-                } else {
-                    vec![(Prop::C11, Pat::IsSome), (Prop::C11, Pat::Render(vec![format!("Some(RateOfTurn {{ raw: {} }})", sv)])), (Prop::C04, Pat::Render(vec![format!("Some(RateOfTurn {{ raw: {} }})", sv)]))]
-                };
+                // RateOfTurn's representation is private: the Debug tree is only asked whether the value
+                // is present; the value itself is compared through rate() / direction() (props/payload.rs)
+                let checks = if sv == -128 { vec![(Prop::C11, Pat::IsNone)] } else { vec![(Prop::C11, Pat::IsSome), (Prop::C04, Pat::IsSome)] };
                 b.push("rate_of_turn", st, 8, Hint::Sentinels(vec![0x80]), checks);
             }
             b.opt_scaled("speed_over_ground", 10, 1023, 10.0, ULP_TENTH);
